@@ -65,7 +65,7 @@ PW_PROTS = ("PBKDF2WithHMAC-SHA1AndDES-EDE3-CBC", "PBKDF2WithHMAC-SHA3-224AndAES
             "PBKDF2WithHMAC-SHA512AndAES128-CBC", "scryptAndAES192-GCM")
 
 P0 = b"pw"
-PWS = (P0, "text passphrase", b"\x00\xff\x80\n bin", asc(150, 1), b"x")
+PWS = (P0, "text passphrase", b"\x00\xff\x80\n bin", asc(150, 1), b"x", "p\u00e4ss\u00ffw\u00f6rd")
 
 
 def pps_for(prot, level):
@@ -1010,8 +1010,8 @@ def run(ctx):
                "three stored domains, three keys per curve; other key values are covered only through these shapes")
     ctx.assume("prot_params values: iteration_count 1, 2 (and the default 1000) for PBKDF2, N in {2, 16} (and the default 16384) "
                "for scrypt, salt_size 8/16, r in {8, 1}, p in {1, 2}")
-    ctx.assume("passphrases: five values (2-octet, ASCII text, binary with NUL/0xFF/newline, 150 octets, 1 octet); text passphrases are "
-               "ASCII because the mapping of non-ASCII text to octets is not fixed by the property")
+    ctx.assume("passphrases: six values (2-octet, ASCII text, binary with NUL/0xFF/newline, 150 octets, 1 octet, text with characters "
+               "in U+0080..U+00FF); the independent reader maps text to octets as ISO 8859-1 (the library's documented convention)")
     ctx.assume("PBES1 containers, OpenSSH private keys and X.509 certificates are import-only formats (the library cannot export them) "
                "and are outside this check")
     ctx.assume("entropy for salts/IVs comes from deterministic tapes (randfunc=, and the seam Crypto.IO._PBES.Random where "
